@@ -34,10 +34,11 @@ const probAddr = "127.0.0.1:6379"
 
 // probSizing is the textbook sizing of a Bloom filter, which is also what the constructors compute
 // (numberOfBloomFilterBits / numberOfBloomFilterHashFunctions): m = ceil(-n ln p / (ln 2)^2) bits,
-// k = round(m/n ln 2) hash functions. k is 0 for n >= 2 and rates above roughly 0.71-0.79.
+// k = round(m/n ln 2) hash functions, at least one (for n >= 2 and rates above roughly 0.71 the
+// rounding alone would give none).
 func probSizing(n uint, p float64) (m, k uint) {
 	m = uint(math.Ceil(-float64(n) * math.Log(p) / math.Pow(math.Log(2), 2)))
-	k = uint(math.Round(float64(m) / float64(n) * math.Log(2)))
+	k = max(1, uint(math.Round(float64(m)/float64(n)*math.Log(2))))
 	return
 }
 
@@ -86,11 +87,29 @@ func probUnquote(items []string) []string {
 var probNs = []uint{1, 1, 2, 2, 3, 5, 7, 10, 10, 33, 100, 100, 1000, 10000, 100000, 1000000}
 var probRates = []float64{0.5, 0.5, 0.9, 0.99, 0.999999, 0.75, 0.7, 0.62, 0.6, 0.3, 0.1, 0.01, 0.01, 0.001, 1e-6, 1e-9, 1e-9, 1e-15, 1e-60}
 
+// huge filters: 10^8 .. 2^32 bits (bit indexes of 9 and 10 decimal digits); the fake server keeps
+// bitmaps of that size sparse (kit/fakeredis/sparsebits.go)
+var probHugeNs = []uint{10000000, 30000000, 100000000, 100000000, 200000000, 300000000, 440000000, 1000000000, 2000000000}
+var probHugeRates = []float64{0.5, 0.3, 0.1, 0.05, 0.01, 0.01, 0.001, 1e-4, 1e-6, 1e-9}
+
+const probMaxBits = 1 << 32 // the largest size NewBloomFilter accepts
+
 // probConfig draws (n, rate) over the domain the constructors accept: 0 < rate < 1 (rate 1 and
 // sizes above 2^32 bits are rejected by NewBloomFilter and drawn separately as "rejected"), rates
-// close to 1 and close to 0, n from 1 to 10^6. maxBits bounds the bitmap because the fake server
-// (like Redis) materialises a string of m/8 bytes and copies it on every BITFIELD.
-func probConfig(rt *rapid.T, maxBits uint) (n uint, rate float64) {
+// close to 1 and close to 0, n from 1 to 2*10^9. hugeShare of 10 cases are filters between 10^8 bits
+// and maxBits.
+func probConfig(rt *rapid.T, maxBits uint, hugeShare int) (n uint, rate float64) {
+	if v := rapid.IntRange(0, 9).Draw(rt, "huge"); maxBits > 100000000 && v%2 == 1 && v/2 < hugeShare {
+		wantGiga := rapid.IntRange(0, 2).Draw(rt, "giga") == 1
+		for try := 0; try < 40; try++ {
+			n = rapid.SampledFrom(probHugeNs).Draw(rt, "hugeN")
+			rate = rapid.SampledFrom(probHugeRates).Draw(rt, "hugeRate")
+			if m, _ := probSizing(n, rate); m > 100000000 && m <= maxBits && (!wantGiga || m > 1000000000) {
+				return n, rate
+			}
+		}
+		return 100000000, 0.01 // 958,505,838 bits
+	}
 	for try := 0; ; try++ {
 		n = rapid.SampledFrom(probNs).Draw(rt, "n")
 		switch rapid.IntRange(0, 9).Draw(rt, "rateKind") {
@@ -162,12 +181,13 @@ func genC35Plan(rt *rapid.T) c35Plan {
 		p.Items = []string{`"a"`}
 		return p
 	}
-	p.N, p.Rate = probConfig(rt, 1<<22)
+	p.N, p.Rate = probConfig(rt, probMaxBits, 4)
 	m, k := probSizing(p.N, p.Rate)
 	p.ReadOnly = rapid.IntRange(0, 2).Draw(rt, "readOnly") == 0
 	maxItems, maxOps, maxMulti := 50, 30, 8
-	if cost := uint64(m/8+64) * uint64(k); cost > 1<<16 {
-		// every bit access copies the bitmap in the fake: keep big filters to short histories
+	if cost := uint64(m/8+64) * uint64(k); m/8 <= 1<<16 && cost > 1<<16 {
+		// up to 64 KiB the fake keeps the bitmap as a byte string and copies it on every bit access:
+		// short histories for the expensive ones (larger bitmaps are sparse and cheap)
 		maxItems, maxOps, maxMulti = 6, 6, 3
 	} else if k > 64 {
 		maxItems, maxOps, maxMulti = 10, 10, 3
@@ -340,11 +360,18 @@ func c35Check(c *stat.Collector, rt stat.Fataler, plan c35Plan, res bubble.Resul
 			c.Fail(rt, "C35.no-hang", fmt.Sprintf("op %d (%s) never returned: %s", i, plan.Ops[i].Kind, res), plan)
 		}
 	}
-	// the recorded finding: configurations whose sizing rounds to zero hash functions store nothing
-	zeroHash := k == 0
-	zeroKnown := zeroHash && c.Known("C35.zero-hash-functions")
 	cfg := fmt.Sprintf("n=%d rate=%v (m=%d bits, k=%d hash functions)", plan.N, plan.Rate, m, k)
 	present := map[int]bool{}
+	// batch composition: which item followed the item in the call that added it / that queries it
+	// (-1: it was the last or only one)
+	addSucc := map[int]map[int]bool{}
+	otherBatch := false
+	succ := func(keys []int, j int) int {
+		if j+1 < len(keys) {
+			return keys[j+1]
+		}
+		return -1
+	}
 	lastCount, haveCount := uint64(0), false
 	queriedPresent, mixed, readd, wasReset := false, false, false, false
 	for i, op := range plan.Ops {
@@ -355,8 +382,12 @@ func c35Check(c *stat.Collector, rt stat.Fataler, plan c35Plan, res bubble.Resul
 		}
 		switch op.Kind {
 		case "add", "addmulti":
-			for _, key := range op.Keys {
+			for j, key := range op.Keys {
 				present[key] = true
+				if addSucc[key] == nil {
+					addSucc[key] = map[int]bool{}
+				}
+				addSucc[key][succ(op.Keys, j)] = true
 			}
 			if wasReset && len(op.Keys) > 0 {
 				readd = true
@@ -374,7 +405,10 @@ func c35Check(c *stat.Collector, rt stat.Fataler, plan c35Plan, res bubble.Resul
 		case "exists":
 			if present[op.Keys[0]] {
 				queriedPresent = true
-				if !o.Bools[0] && !zeroKnown {
+				if !addSucc[op.Keys[0]][-1] {
+					otherBatch = true
+				}
+				if !o.Bools[0] {
 					c.Fail(rt, "C35.no-false-negative", fmt.Sprintf("%s: item %s was added and not reset/deleted since, Exists reports false", where, plan.Items[op.Keys[0]]), plan)
 				}
 			}
@@ -390,7 +424,10 @@ func c35Check(c *stat.Collector, rt stat.Fataler, plan c35Plan, res bubble.Resul
 				if present[key] {
 					np++
 					queriedPresent = true
-					if !o.Bools[j] && !zeroKnown {
+					if !addSucc[key][succ(op.Keys, j)] || !addSucc[key][-1] {
+						otherBatch = true // the Exists right after asks for the item alone
+					}
+					if !o.Bools[j] {
 						c.Fail(rt, "C35.no-false-negative", fmt.Sprintf("%s: item %s (position %d) was added and not reset/deleted since, ExistsMulti reports false there: %v", where, plan.Items[key], j, o.Bools), plan)
 					}
 				}
@@ -410,6 +447,7 @@ func c35Check(c *stat.Collector, rt stat.Fataler, plan c35Plan, res bubble.Resul
 			lastCount, haveCount = o.Count, true
 		case "reset", "delete":
 			present = map[int]bool{}
+			addSucc = map[int]map[int]bool{}
 			haveCount = false
 			wasReset = true
 		}
@@ -423,8 +461,6 @@ func c35Check(c *stat.Collector, rt stat.Fataler, plan c35Plan, res bubble.Resul
 	}
 	cls[map[bool]string{true: "exists-readonly-script", false: "exists-write-script"}[plan.ReadOnly]] = true
 	switch {
-	case k == 0:
-		cls["k=0"] = true
 	case k == 1:
 		cls["k=1"] = true
 	case k <= 8:
@@ -441,8 +477,18 @@ func c35Check(c *stat.Collector, rt stat.Fataler, plan c35Plan, res bubble.Resul
 		cls["m<=1024bits"] = true
 	case m <= 1<<20:
 		cls["m<=2^20bits"] = true
+	case m <= 100000000:
+		cls["m<=10^8bits"] = true
+	case m <= 1000000000:
+		cls["m>10^8bits(9-digit-indexes)"] = true
 	default:
-		cls["m>2^20bits"] = true
+		cls["m>10^9bits(10-digit-indexes)"] = true
+	}
+	if otherBatch {
+		cls["queried-in-other-batch-composition-than-added"] = true
+		if m > 100000000 {
+			cls["queried-in-other-batch-composition-than-added,m>10^8bits"] = true
+		}
 	}
 	if plan.Rate >= 0.9 {
 		cls["rate>=0.9"] = true
@@ -459,11 +505,11 @@ func c35Check(c *stat.Collector, rt stat.Fataler, plan c35Plan, res bubble.Resul
 	if readd {
 		cls["add-after-reset-or-delete"] = true
 	}
-	return queriedPresent && !zeroKnown, nil, false
+	return queriedPresent, nil, false
 }
 
 func TestVerif_C35_Bloom(t *testing.T) {
-	c := stat.For("C35", "bloom").Rule("single client in a synctest bubble against the fake server running the filter's real Lua scripts; (n, rate) over the accepted domain: n in 1..10^6, rate uniform in (0,1), 1-10^-j (j<=15), 10^-j (j<=300) and a list with 0.5/0.9/0.99/0.999999/1e-9 (bitmap capped at 2^22 bits), with and without WithEnableReadOperation, plus 4% configurations outside the domain (constructor only); histories of 1-30 ops from {Add, AddMulti (duplicates, empty), Exists, ExistsMulti, Count, Reset, Delete} over a pool of 1-50 distinct items (empty, binary, long, digit strings); oracle: model set of items added since the last Reset/Delete => Exists true and the matching ExistsMulti position true, len(ExistsMulti)==len(input), every position equals Exists of that key in the same state, Count never decreases between Reset/Delete, no error, no panic, no hang; non-trivial = the history queries an item that was added before and is still in the model")
+	c := stat.For("C35", "bloom").Rule("single client in a synctest bubble against the fake server running the filter's real Lua scripts; (n, rate) over the accepted domain: n in 1..2*10^9, rate uniform in (0,1), 1-10^-j (j<=15), 10^-j (j<=300) and a list with 0.5/0.9/0.99/0.999999/1e-9, 40% of the cases filters of 10^8..2^32 bits (n 10^7..2*10^9; bit indexes of 9 and 10 digits; the fake keeps such bitmaps sparse), with and without WithEnableReadOperation, plus 4% configurations outside the domain (constructor only); histories of 1-30 ops from {Add, AddMulti (duplicates, empty), Exists, ExistsMulti, Count, Reset, Delete} over a pool of 1-50 distinct items (empty, binary, long, digit strings); oracle: model set of items added since the last Reset/Delete => Exists true and the matching ExistsMulti position true, len(ExistsMulti)==len(input), every position equals Exists of that key in the same state, Count never decreases between Reset/Delete, no error, no panic, no hang; non-trivial = the history queries an item that was added before and is still in the model")
 	defer c.Flush()
 	rapid.Check(t, func(rt *rapid.T) {
 		plan := genC35Plan(rt)
